@@ -278,8 +278,11 @@ func lexMode(src string, closeRun, wide bool) *LexResult {
 							}
 						}
 						if v >= 0xD800 && v <= 0xDFFF {
-							res.Abstain = "surrogate-escape"
-							return res
+							if !wide {
+								res.Abstain = "surrogate-escape"
+								return res
+							}
+							v = 0xFFFD // frame mode: only the extent of the token matters
 						}
 						val = append(val, v)
 						j += 6
